@@ -258,6 +258,23 @@ fn arbitrary_driver(seed: u64, n: u64, out: &str) -> i32 {
             }
         }
     }
+    // the same maximal requests with every text made of multi-byte characters, at every alignment:
+    // capacity cuts and fixed-offset slices then fall inside characters
+    for sel in selectors.iter().take(7) {
+        for ch in [&b"\xC3\xA9"[..], &b"\xE2\x82\xAC"[..], &b"\xF0\x9F\x98\x81"[..]] {
+            for lead in 0..4usize {
+                for tail in [0usize, 1, 2, 5] {
+                    let mut b = sel.to_vec();
+                    b.extend(std::iter::repeat(b'a').take(lead));
+                    while b.len() < 2600 { b.extend_from_slice(ch); }
+                    // the lengths of borrowed strings and byte strings are read from the END of the input
+                    b.extend(std::iter::repeat(0x01u8).take(tail));
+                    b.extend_from_slice(&[40, 33, 35, 64][..(lead % 4) + 1]);
+                    sweeps.push(b);
+                }
+            }
+        }
+    }
     for (k, v) in sweeps.into_iter().enumerate() {
         let at = (k * 3) % (inputs.len().max(1));
         inputs.insert(at, v);
